@@ -238,7 +238,7 @@ def run(ctx):
         txt = open(os.path.join(tlc.SPEC, 'MCInteract.cfg')).read().replace('Devs = {}', 'Devs <- ' + dev)
         p = os.path.join(ctx.work, dev + '.cfg')
         open(p, 'w').write(txt)
-        r = tlc.run('MCInteract', p, ctx.work, workers=4, timeout=600, outname=dev + '.out')
+        r = tlc.run('MCInteract', p, ctx.work, workers=4, timeout=600, outname=dev + '.out', only=want)
         if r['violated'] != want:
             raise tlc.TLCError('Interact with %s should violate %s, got %s' % (dev, want, r['violated']))
         sens[dev] = want
